@@ -490,4 +490,68 @@ theorem step1_not_ambiguous (cfg : Cfg) (hs : Stable cfg) (st : PState) (b : Byt
         · simp [hc] at h
     · cases h
 
+/-! ### the guard does not depend on decoder, screen size or X11 variant -/
+
+theorem isComplete_sgrFinish (cfg : Cfg) (st : PState) (x y btn : Int) (rel : Bool) (k : Nat) :
+    isComplete (sgrFinish cfg st x y btn rel k) = true := by simp [sgrFinish, isComplete]
+
+theorem isComplete_x11Body (cfg cfg' : Cfg) (st : PState) (k : Nat) (r : Bytes) :
+    isComplete (x11Body cfg st k r) = isComplete (x11Body cfg' st k r) := by
+  rcases r with _ | ⟨m, r2⟩
+  · rfl
+  · by_cases hm : m = 77
+    · subst hm
+      rcases r2 with _ | ⟨cb, _ | ⟨cx, _ | ⟨cy, t⟩⟩⟩
+      · rfl
+      · rfl
+      · rfl
+      · cases h1 : cfg.x11Fixed <;> cases h2 : cfg'.x11Fixed <;> simp [x11Body, h1, h2, isComplete, sgrFinish]
+    · simp [x11Body, hm]
+
+theorem isComplete_xterm (cfg cfg' : Cfg) (st : PState) (a : Bytes) :
+    isComplete (parseXtermMouse cfg st a) = isComplete (parseXtermMouse cfg' st a) := by
+  rcases a with _ | ⟨c0, r0⟩
+  · rfl
+  · by_cases h0 : c0 = 27
+    · subst h0
+      rcases r0 with _ | ⟨c1, r1⟩
+      · rfl
+      · by_cases h1 : c1 = 91
+        · subst h1; simp only [parseXtermMouse, if_true, ne_eq, not_true_eq_false, if_false]
+          exact isComplete_x11Body cfg cfg' st 2 r1
+        · simp [parseXtermMouse, h1]
+    · by_cases h9 : c0 = 0x9b
+      · subst h9
+        have e1 : parseXtermMouse cfg st (0x9b :: r0) = x11Body cfg st 1 r0 := by simp [parseXtermMouse]
+        have e2 : parseXtermMouse cfg' st (0x9b :: r0) = x11Body cfg' st 1 r0 := by simp [parseXtermMouse]
+        rw [e1, e2]; exact isComplete_x11Body cfg cfg' st 1 r0
+      · simp [parseXtermMouse, h0, h9]
+
+theorem isComplete_sgrRun (cfg cfg' : Cfg) (st : PState) : ∀ (r : Bytes) (s : SgrSt) (i : Nat),
+    isComplete (sgrRun cfg st s r i) = isComplete (sgrRun cfg' st s r i) := by
+  intro r
+  induction r with
+  | nil => intro s i; rfl
+  | cons c rest ih =>
+    intro s i
+    unfold sgrRun
+    cases hs : sgrStep s c with
+    | rej => rfl
+    | cont s' => exact ih s' (i + 1)
+    | fin x y btn rel => simp [isComplete_sgrFinish]
+
+/-- two configurations with the same key table, the same active parsers and the same clipboard variant have the same guard -/
+theorem keyGuard_congr (cfg cfg' : Cfg) (hk : cfg'.keys = cfg.keys) (hm : cfg'.mouse = cfg.mouse)
+    (hc : cfg'.clipboard = cfg.clipboard) (hf : cfg'.clipFixed = cfg.clipFixed) : keyGuard cfg' = keyGuard cfg := by
+  have hl : ∀ s : Bytes, ((laterParsers cfg').all fun q => allStates.all fun st => !isComplete (q st s))
+      = ((laterParsers cfg).all fun q => allStates.all fun st => !isComplete (q st s)) := by
+    intro s
+    unfold laterParsers
+    rw [hm, hc, hf]
+    cases cfg.mouse <;> cases cfg.clipboard <;>
+      simp [isComplete_xterm cfg' cfg, parseSgrMouse, isComplete_sgrRun cfg' cfg]
+  unfold keyGuard
+  rw [hk]
+  simp only [hl]
+
 end Tcell.Lemmas.Chunk
